@@ -18,7 +18,25 @@ Scale classes: a case may carry `scale` = {"pow2": k} (scene * 2**k, exact) or {
 rounded once per pixel); the driver always receives the exact rational value of every float64 pixel that pewlib
 receives, whatever the scale.
 
-Long axes: a pair whose model evaluation would cost more than LONG_COST products (transform length far above 1024)
+Histories (`kind: hist`): 2-3 steps on ONE pair of array objects (frame buffers) that are refreshed IN PLACE between the
+calls (windows moved over a feature on an empty background: both sums stay the same while the true translation
+changes; the pixels under a window shuffled / flipped / rolled: that buffer's sum stays the same; ordinary edits; the
+very same contents again; sometimes a buffer is replaced by a new array object after the old one was released), 1-2
+calls per step in the orders ab / ba / aa / bb.  Every call is compared with the specification and the mechanism
+model OF THE CONTENTS AT THE TIME OF THAT CALL (the Lean model is a function of the two images: an implementation that
+keeps anything from an earlier call differs from it).
+
+Presentations (`pres`): the same pixel values handed to pewlib in another dtype (float32 / float16 / big-endian /
+long double / signed and unsigned integers of 1-8 bytes / bool) and memory layout (Fortran order, every second element
+of a larger buffer, negative strides, read-only).  A dtype is used only if it holds every value exactly (else float64);
+images whose transform numpy computes in single precision must keep their non-zero magnitudes inside [2^-30, 2^30]
+and are compared only when the maximum leads by 1e-4 of the product of the 1-norms.
+
+Merging at the estimate: `c12.merge` merges the two images themselves (`placed`), the second at the estimate the
+mechanism model returned, against `mergeSpec` of the scene with the windows at the true translation (theorem
+merge_at_estimate and its corollaries); the implementation merges at its own estimate.
+
+Long and medium axes: a pair whose model evaluation would cost more than LONG_COST products
 goes through `c12.registerLong`: the exact correlation over the WHOLE lag box comes from the integer array twin of
 PewModel/RegisterFast.lean, which is PROVED equal to the model (PewTheorems.C12: fastLin_eq_xcorr, fastCirc_eq_xcorrCirc,
 peakOfTable_fast_eq_peak, registerOf_fast_eq_register; every dimension, shape, data list, lag).  As a cheap sanity check of
@@ -40,10 +58,17 @@ ANCHORS = ["top left", "top right", "bottom left", "bottom right", "center"]
 MARGIN = Fraction(1, 20)
 MASK = "premise-fails"
 MERGE_VARIANTS = [(m, f) for m in ("replace", "mean") for f in (None, 0.0, 2.5)]
-LONG_COST = 1_500_000  # products of the model (|s|^2 + |s| |b|) above which the array twin route is used
-POW2 = [-40, -30, 30, 60]
-DEC = ["1e-9", "1e9"]
+LONG_COST = 200_000  # products of the model (|s|^2 + |s| |b|) above which the array twin route is used
+POW2 = [-150, -40, -30, 30, 60, 150]
+DEC = ["1e-12", "1e-9", "1e-6", "1e9"]
 SAFE_LO, SAFE_HI = 2.0 ** -200, 2.0 ** 200  # pixel magnitudes for which no product under/overflows in float64
+SINGLE_LO, SINGLE_HI = 2.0 ** -30, 2.0 ** 30  # the same for images whose transform numpy computes in single precision
+SINGLE = ("f4", "f2")  # np.fft keeps float32 (and computes float16 in float32): complex64 transforms
+MARGIN_ABS = Fraction(1, 10 ** 9)  # of the product of the 1-norms, double precision transforms
+MARGIN_ABS_SINGLE = Fraction(1, 10 ** 4)  # the same for single precision transforms (eps 6e-8, log2 N <= 12)
+DTYPES = ("f8", "f4", "f2", ">f8", "g", "i8", "i4", "i2", "i1", "u1", "u2", ">i4", "?")
+LAYOUTS = ("C", "F", "strided", "rev", "ro")
+ORDERS = ("ab", "ba", "aa", "bb")
 
 
 def fhex(v) -> str:
@@ -101,12 +126,108 @@ def float_safe(arr):
     return nz.size == 0 or (float(nz.min()) >= SAFE_LO and float(nz.max()) <= SAFE_HI)
 
 
+def alloc(shape, pres):
+    """a writable ndarray of the given shape whose dtype / memory layout follow the presentation `pres`
+    ({"dtype": one of DTYPES, "layout": one of LAYOUTS}; None: float64, C order).  `strided`: every second element of a
+    larger buffer that holds a sentinel between the pixels; `rev`: a view with negative strides"""
+    pres = pres or {}
+    dt = np.dtype(pres.get("dtype", "f8"))
+    layout = pres.get("layout", "C")
+    shape = tuple(int(n) for n in shape)
+    if layout == "F":
+        return np.zeros(shape, dtype=dt, order="F")
+    if layout == "strided":
+        base = np.full(tuple(2 * n + 1 for n in shape), 1 if dt.kind == "b" else 77, dtype=dt)
+        return base[tuple(slice(1, None, 2) for _ in shape)]
+    if layout == "rev":
+        return np.zeros(shape, dtype=dt)[tuple(slice(None, None, -1) for _ in shape)]
+    return np.zeros(shape, dtype=dt)
+
+
+def pres_ok(content, pres):
+    """can the float64 `content` be held exactly in the dtype of the presentation (and, for a dtype whose transform is
+    computed in single precision, without products leaving the float32 range)"""
+    pres = pres or {}
+    dts = pres.get("dtype", "f8")
+    if dts not in DTYPES or pres.get("layout", "C") not in LAYOUTS:
+        return False
+    dt = np.dtype(dts)
+    with np.errstate(all="ignore"):
+        back = content.astype(dt).astype(np.float64)
+    if not np.array_equal(back, content):
+        return False
+    if dts in SINGLE:
+        nz = np.abs(content[content != 0])
+        if nz.size and not (float(nz.min()) >= SINGLE_LO and float(nz.max()) <= SINGLE_HI):
+            return False
+    return True
+
+
+def fill_buffer(buf, content):
+    """in-place refresh of a buffer (the array object stays the same)"""
+    ro = not buf.flags.writeable
+    if ro:
+        buf.flags.writeable = True
+    buf[...] = content
+    if ro:
+        buf.flags.writeable = False
+
+
+def present(content, pres):
+    """the ndarray handed to pewlib for the float64 `content`: same values, dtype / layout of the presentation; falls
+    back to a plain float64 copy when the dtype cannot hold the values exactly.  Returns (array, effective presentation)"""
+    if not pres or not pres_ok(content, pres):
+        return content.copy(), None
+    x = alloc(content.shape, pres)
+    x[...] = content
+    if pres.get("layout") == "ro":
+        x.flags.writeable = False
+    return x, pres
+
+
+def twin_cost(sa, sb):
+    """integer products of the array twin over the whole lag box"""
+    return int(np.prod([x + y - 1 for x, y in zip(sa, sb)], dtype=object)) * int(np.prod(sb, dtype=object))
+
+
+SELF_COST = 1_500_000  # a self-registration part above this many twin products is left out (one image with a very long axis)
+
+
 def model_cost(sa, sb):
     s = int(np.prod([x + y - 1 for x, y in zip(sa, sb)], dtype=object))
     return s * s + s * int(np.prod(sb, dtype=object))
 
 
+def valid_hist(case):
+    """a history case: fixed window shapes, per step the scene data, the two window origins, the calls to make"""
+    try:
+        shape, sa, sb, steps = case["shape"], case["sa"], case["sb"], case["steps"]
+        d = len(shape)
+        if not (1 <= d <= 3 and len(sa) == d and len(sb) == d and 1 <= len(steps) <= 6):
+            return False
+        if any(int(n) < 1 for n in list(shape) + list(sa) + list(sb)):
+            return False
+        size = int(np.prod(shape))
+        if case.get("scale") is not None:
+            f = scale_factor(case["scale"])
+            if not (math.isfinite(f) and f > 0):
+                return False
+        for st in steps:
+            if len(st["data"]) != size or not st["calls"] or len(st["calls"]) > 4:
+                return False
+            if any(c not in ORDERS for c in st["calls"]) or any(ch not in "ab" for ch in st.get("fresh", "")):
+                return False
+            for off, sh in ((st["offA"], sa), (st["offB"], sb)):
+                if len(off) != d or any(o < 0 or o + w > n for o, w, n in zip(off, sh, shape)):
+                    return False
+        return True
+    except (KeyError, ValueError, OverflowError, TypeError):
+        return False
+
+
 def valid(case):
+    if case["kind"] == "hist":
+        return valid_hist(case)
     if case["kind"] != "reg":
         return True
     A, B, sc = case["A"], case["B"], case["scene"]
@@ -141,16 +262,24 @@ class C12(Prop):
             "(integer textures * 2^k, k in -40 -30 +30 +60, exact; real texture * 1e-9 / 1e9), half of those equally shaped "
             "and displaced; long axes (transform length a+b-1 in 1100..1900 or 2100..2700, 1-D, or 2-D with a short second "
             "axis; both signs; equal and very unequal sizes): 10 fixed pairs on every run plus ~0.4 % (quick) / 0.8 % + 24 "
-            "(thorough) of the generated pairs; a seventh of the pairs with the scene set to zero outside the overlap of the two windows (the scene "
-            "hypothesis of theorem register_truth then holds); non-trivial = the exact cross-correlation "
+            "(thorough) of the generated pairs; medium sizes (transform lengths 30..1000 1-D, 12..40 2-D, 8..12 3-D; 8 fixed pairs "
+            "plus ~4 %); a seventh of the pairs with the scene set to zero outside the overlap of the two windows (the scene "
+            "hypotheses of theorems register_truth and register_zero_background then hold); textures also all <= 0, 0/1 masks, "
+            "a single non-zero pixel; scales 2^-150 .. 2^150 and 1e-12 .. 1e9; a third of the pairs handed over in another dtype "
+            "(f4 f2 >f8 longdouble i1..i8 u1 u2 >i4 bool, only if exact) and memory layout (F order, strided view, negative "
+            "strides, read-only); ~16 % histories: 2-3 steps of 1-2 calls on one pair of array objects refreshed in place "
+            "between the calls (windows moved over a feature on an empty background, pixels permuted, ordinary edits, unchanged "
+            "contents, buffers replaced; orders ab/ba/aa/bb), 11 fixed ones on every run, each call judged on the contents at "
+            "the time of the call; non-trivial = the exact cross-correlation "
             "has a maximum >= 5 % above every other lag, so that the pair is compared (whether or not the maximum is at the "
             "true translation: that is a feature); "
-            "anchors: every shape pair <= 12 x 12 with the five anchors on every run, plus random larger shapes; "
+            "anchors: every shape pair <= 12 x 12 with the five anchors on every run, plus random larger shapes and extents "
+            "beyond 2^31 / 2^32 (zero-stride arrays); "
             "distinct by canonical case hash")
     trusted = ["np.fft.rfftn/irfftn(s=...) compute the circular cross-correlation of the zero padded arrays "
                "(correlation theorem) with an error far below the 5 % margin demanded of compared cases",
                "np.pad / np.argmax (first maximum) / np.unravel_index / np.where as documented",
-               "pairs whose model evaluation would need more than 1.5e6 products (long axes): the exact correlation over the "
+               "pairs whose model evaluation would need more than 2e5 products (medium and long axes): the exact correlation over the "
                "whole lag box (maximum, runner-up, first maximum of the circular array) is computed by the integer array twin "
                "PewModel/RegisterFast.lean (toFImg / fastLin / fastCirc / peakOfTable / registerOf), which is no longer trusted: "
                "it is proved equal to the model for every number of dimensions, shape, data list and lag (theorems "
@@ -167,7 +296,13 @@ class C12(Prop):
                    "never a violation; a well-separated maximum that is not at the true translation is compared all the same "
                    "(estimate = lag of the maximum), only the merge clause is masked there",
                    "a scaled scene with a non-zero pixel magnitude outside [2^-200, 2^200] (products could under/overflow in "
-                   "float64) is not compared (undetermined)"]
+                   "float64) is not compared (undetermined)",
+                   "an image is handed over in a dtype other than float64 only if that dtype holds every pixel exactly; float32 / "
+                   "float16 images (numpy transforms them in single precision) only with non-zero magnitudes inside [2^-30, 2^30], not on "
+                   "the array twin route, and a part with such an image is compared only if the maximum leads by >= 1e-4 of the product "
+                   "of the 1-norms (single precision round-off of the transform stays far below that)",
+                   "a self-registration part whose exact evaluation would need more than 1.5e6 integer products (an image with "
+                   "an axis above ~870) is left out; the pair itself (ab, ba) is always evaluated"]
 
     # ------------------------------------------------------------------ generation
     def gen_scene(self, rng, shape, kind):
@@ -177,6 +312,13 @@ class C12(Prop):
             data = [rng.randint(-9, 9) for _ in range(size)]
         elif kind == "positive":
             data = [rng.randint(0, 9) for _ in range(size)]
+        elif kind == "negative":  # no pixel above zero
+            data = [-rng.randint(0, 9) for _ in range(size)]
+        elif kind == "binary":  # a mask: zeros and ones
+            data = [1 if rng.random() < 0.35 else 0 for _ in range(size)]
+        elif kind == "single":  # one pixel that is not zero (assemble moves it into the overlap of the two windows)
+            data = [0] * size
+            data[rng.randrange(size)] = rng.choice([-1, 1]) * rng.randint(1, 40)
         elif kind == "sparse":
             data = [0] * size
             for _ in range(max(1, size // 4)):
@@ -221,6 +363,14 @@ class C12(Prop):
             keep[tuple(slice(l, h) for l, h in zip(lo, hi))] = True
             arr[~keep] = 0
             scene["data"] = [int(v) for v in arr.ravel()]
+        if kind == "single":
+            # the only non-zero pixel lies in the overlap of the two windows (both images see it)
+            lo = [max(x, y) for x, y in zip(offA, offB)]
+            hi = [min(x + p, y + q) for x, p, y, q in zip(offA, sa, offB, sb)]
+            v = rng.choice([-1, 1]) * rng.randint(1, 40)
+            arr = np.zeros(shape, dtype=object)
+            arr[tuple(rng.randrange(l, h) for l, h in zip(lo, hi))] = v
+            scene["data"] = [int(x) for x in arr.ravel()]
         case = {"kind": "reg", "texture": kind, "rel": rel, "scene": scene,
                 "A": {"off": offA, "shape": list(sa)}, "B": {"off": offB, "shape": list(sb)}}
         if scale is not None:
@@ -257,7 +407,7 @@ class C12(Prop):
         if d == 1:
             S = rng.randint(1100, 1900) if rng.random() < 0.55 else rng.randint(2100, 2700)
         else:
-            S = rng.randint(1100, 1500) if rng.random() < 0.7 else rng.randint(2100, 2300)
+            S = rng.randint(1100, 1300) if rng.random() < 0.85 else rng.randint(2100, 2200)
         rel = rng.choice(["overlap", "overlap", "equal", "sub", "super", "far"])
         if rel in ("overlap", "equal"):
             a = (S + 1) // 2 + (0 if rel == "equal" else rng.randint(-S // 6, S // 6))
@@ -273,7 +423,7 @@ class C12(Prop):
             l = rng.choice([-1, 1]) * rng.randint(1, (a - 1) // 2)
         sa, sb, t = [a], [b], [l]
         if d == 2:
-            x, y, m = self.axis(rng, rel, rng.randint(1, 3), rng.randint(1, 3))
+            x, y, m = self.axis(rng, rel, rng.randint(1, 2), rng.randint(1, 2))
             pos = rng.randrange(2)
             sa.insert(pos, x)
             sb.insert(pos, y)
@@ -286,16 +436,196 @@ class C12(Prop):
                 scale = {"pow2": rng.choice(POW2)}
         return self.assemble(rng, sa, sb, t, kind, rel, scale, {"cls": "long"})
 
+    def pick_pres(self, rng, integer, nonneg, binary):
+        """a dtype / layout for one image; the dtype is drawn among those that can hold the texture"""
+        dts = ["f8", "f8", "f4", "f4", ">f8", "g"]
+        if integer:
+            dts += ["i8", "i8", "i4", "i2", ">i4", "f2"] + (["u1", "u2"] if nonneg else ["i1"]) + (["?", "?"] if binary else [])
+        return {"dtype": rng.choice(dts), "layout": rng.choice(["C", "C", "F", "strided", "rev", "ro"])}
+
+    def gen_hist(self, rng, tier, mode=None, d=None):
+        """2-3 registrations in a row on the SAME two array objects (frame buffers), refreshed in place between the
+        calls; every call is judged on the contents at the time of the call.
+        frame-move: one textured feature on an empty background, both windows keep the feature inside while they move
+                    (the sums of both buffers stay the same, the true translation changes);
+        permute   : the pixels of the scene under window A (or B, or of the whole scene) are shuffled / flipped / rolled
+                    (the sum of that buffer stays the same), the other window is re-cut;
+        edit      : ordinary edits (some pixels get new values; or nothing changes at all);
+        mixed     : one of the above per step."""
+        mode = mode or rng.choice(["frame-move", "frame-move", "permute", "permute", "edit", "mixed"])
+        d = d or rng.choice([1, 1, 2, 2, 2, 3])
+        hi = {1: 20, 2: 8, 3: 4}[d]
+        nsteps = rng.choice([2, 2, 3])
+        kind = rng.choice(["signed", "positive", "real", "negative"])
+        sa, sb, feat = [], [], []
+        for _ in range(d):
+            a, b = rng.randint(2, hi), rng.randint(1, hi)
+            if rng.random() < 0.6:
+                a, b = max(a, b), min(a, b)  # mostly a frame and a smaller tile, sometimes the other way round
+            sa.append(a)
+            sb.append(b)
+            feat.append(rng.randint(1, max(1, min(a, b) - (1 if rng.random() < 0.7 else 0))))
+        zero_bg = mode == "frame-move" or (mode == "mixed" and rng.random() < 0.5)
+        slack = [rng.randint(1, 4) for _ in range(d)]
+        shape = [max(a, b) + k for a, b, k in zip(sa, sb, slack)]
+        size = int(np.prod(shape))
+        if zero_bg:
+            # the feature box somewhere in the scene such that windows of both shapes can hold it in several positions
+            fpos = [rng.randint(0, n - f) for n, f in zip(shape, feat)]
+            tex = np.array(self.gen_scene(rng, feat, kind)["data"], dtype=object).reshape(feat)
+            if not tex.any():
+                tex.flat[0] = 3
+            arr = np.zeros(shape, dtype=object)
+            arr[tuple(slice(o, o + f) for o, f in zip(fpos, feat))] = tex
+        else:
+            fpos = None
+            arr = np.array(self.gen_scene(rng, shape, kind)["data"], dtype=object).reshape(shape)
+
+        def place(w):
+            """origin of a window of shape w: anywhere, or (feature scenes) anywhere that keeps the feature inside"""
+            if fpos is None:
+                return [rng.randint(0, n - x) for n, x in zip(shape, w)]
+            return [rng.randint(max(0, o + f - x), min(o, n - x)) for n, x, o, f in zip(shape, w, fpos, feat)]
+
+        def near(offA):
+            """origin of B that overlaps A (so that the translation lies in the lag box)"""
+            if fpos is not None:
+                return place(sb)
+            return [rng.randint(max(0, o - (b - 1)), min(n - b, o + a - 1)) for o, a, b, n in zip(offA, sa, sb, shape)]
+
+        offA = place(sa)
+        offB = near(offA)
+        steps = []
+        for k in range(nsteps):
+            label = "first"
+            if k > 0:
+                m = mode if mode != "mixed" else rng.choice(["frame-move", "permute", "edit"])
+                if m == "frame-move" or (fpos is not None and m == "permute"):
+                    # the windows move (the scene stays); on an empty background the sums stay the same
+                    which = rng.choice(["a", "a", "b", "ab"])
+                    for _ in range(8):
+                        nA = place(sa) if "a" in which else offA
+                        nB = near(nA) if ("b" in which or fpos is None) else offB
+                        if [y - x for x, y in zip(nA, nB)] != [y - x for x, y in zip(offA, offB)]:
+                            break
+                    offA, offB = nA, nB
+                    label = "move-" + which
+                elif m == "permute":
+                    target = rng.choice(["a", "a", "b", "scene"])
+                    if target == "scene":
+                        sl = tuple(slice(0, n) for n in shape)
+                    else:
+                        off, w = (offA, sa) if target == "a" else (offB, sb)
+                        sl = tuple(slice(o, o + x) for o, x in zip(off, w))
+                    sub = arr[sl].copy()
+                    how = rng.choice(["shuffle", "shuffle", "flip", "roll"])
+                    if how == "shuffle":
+                        flat = list(sub.ravel())
+                        rng.shuffle(flat)
+                        sub = np.array(flat, dtype=object).reshape(sub.shape)
+                    elif how == "flip":
+                        ax = rng.randrange(d)
+                        sub = np.flip(sub, axis=ax)
+                    else:
+                        ax = rng.randrange(d)
+                        sub = np.roll(sub, rng.randint(1, max(1, sub.shape[ax] - 1)), axis=ax)
+                    arr = arr.copy()
+                    arr[sl] = sub
+                    if rng.random() < 0.5:
+                        if target == "a":
+                            offB = near(offA)
+                        elif target == "b":
+                            offA = [rng.randint(max(0, o - (a - 1)), min(n - a, o + b - 1))
+                                    for o, a, b, n in zip(offB, sa, sb, shape)]
+                    label = "permute-" + target + ":" + how
+                else:
+                    r = rng.random()
+                    if r < 0.2:
+                        label = "edit:none"  # the very same contents again
+                    else:
+                        arr = arr.copy()
+                        nz = [i for i in range(size) if arr.flat[i] != 0] or [0]
+                        for _ in range(rng.randint(1, max(1, size // 5))):
+                            i = rng.choice(nz) if (fpos is not None and rng.random() < 0.8) else rng.randrange(size)
+                            arr.flat[i] = arr.flat[i] + rng.choice([-5, -1, 1, 2, 5]) * (1 if kind != "real" else 512)
+                        label = "edit:values"
+                        if rng.random() < 0.4:
+                            offA = place(sa)
+                            offB = near(offA)
+                            label = "edit:values+move"
+            r = rng.random()
+            calls = (["ab"] if r < 0.45 else ["ba"] if r < 0.65 else ["ab", "ba"] if r < 0.8 else ["ab", "ab"] if r < 0.85
+                     else ["aa"] if r < 0.9 else ["bb"] if r < 0.95 else ["ba", "ab"])
+            fresh = "" if (k == 0 or rng.random() < 0.8) else rng.choice(["a", "b", "ab"])
+            steps.append({"data": [int(v) for v in arr.ravel()], "offA": list(offA), "offB": list(offB), "calls": calls,
+                          "fresh": fresh, "label": label})
+        case = {"kind": "hist", "mode": mode, "texture": kind, "q": 10 if kind == "real" else 0, "shape": shape,
+                "sa": sa, "sb": sb, "steps": steps}
+        if rng.random() < 0.3:
+            integer = kind != "real"
+            case["presA"] = self.pick_pres(rng, integer, kind == "positive", False)
+            case["presB"] = self.pick_pres(rng, integer, kind == "positive", False)
+        if rng.random() < 0.12:
+            case["scale"] = self.pick_scale(rng, kind)
+        return case
+
+    def gen_medium(self, rng, tier):
+        """sizes between the small pairs and the long axes: transform lengths 30..1000 (1-D), 12..40 per axis (2-D),
+        8..12 (3-D) - around 32, 64, 128, 256, 512 and well between them; any relation, both signs"""
+        d = rng.choice([1, 1, 1, 2, 2, 3])
+        rel = rng.choice(["sub", "super", "overlap", "overlap", "far", "equal"])
+        sa, sb, t = [], [], []
+        for i in range(d):
+            if d == 1:
+                S = rng.choice([rng.randint(30, 1000), rng.choice([32, 64, 128, 256, 512]) + rng.randint(-2, 3)])
+            elif d == 2:
+                S = rng.randint(12, 40)
+            else:
+                S = rng.randint(8, 12)
+            if rel in ("overlap", "equal"):
+                a = (S + 1) // 2 + (0 if rel == "equal" else rng.randint(-(S // 6), S // 6))
+                b = S + 1 - a
+            elif rel == "super":
+                a = rng.randint(1, max(1, S // 3))
+                b = S + 1 - a
+            else:
+                b = rng.randint(1, max(1, S // 3))
+                a = S + 1 - b
+            a, b, l = self.axis(rng, rel, max(1, a), max(1, b))
+            sa.append(a)
+            sb.append(b)
+            t.append(l)
+        if rel == "equal" and not any(t):
+            i = rng.randrange(d)
+            if sa[i] > 1:
+                t[i] = rng.choice([-1, 1]) * rng.randint(1, max(1, (sa[i] - 1) // 2))
+        kind = rng.choice(["signed", "signed", "sparse", "positive", "real", "negative"])
+        scale = self.pick_scale(rng, kind) if rng.random() < 0.15 else None
+        return self.assemble(rng, sa, sb, t, kind, rel, scale, {"cls": "medium"})
+
     def generate(self, rng, tier):
         if rng.random() < 0.04:
+            if rng.random() < 0.25:
+                # extents beyond 2**31 / 2**32 on one axis (anchor_offset reads shapes only: zero-stride arrays)
+                big = lambda: rng.choice([2 ** 31 - 1, 2 ** 31, 2 ** 32 + 1, 2 ** 33 + rng.randint(0, 9), 10 ** 12 + rng.randint(0, 9)])
+                ax = rng.randrange(2)
+                side = lambda i: big() if i == ax and rng.random() < 0.8 else rng.randint(1, 60)
+                a = [side(0), side(1)]
+                bs = [[side(0), side(1)] for _ in range(12)]
+                return {"kind": "anchors", "a": a, "bs": bs}
             a = [rng.randint(1, 60), rng.randint(1, 60)]
             bs = [[rng.randint(1, 60), rng.randint(1, 60)] for _ in range(40)]
             return {"kind": "anchors", "a": a, "bs": bs}
         if rng.random() < (0.004 if tier == "quick" else 0.008):
             return self.gen_long(rng, tier)
+        if rng.random() < 0.16:
+            return self.gen_hist(rng, tier)
+        if rng.random() < 0.04:
+            return self.gen_medium(rng, tier)
         d = rng.choice([1, 1, 2, 2, 2, 3])
         hi = {1: 24, 2: 9, 3: 5}[d]
-        kind = rng.choice(["signed", "signed", "sparse", "blobs", "positive", "real", "real"])
+        kind = rng.choice(["signed", "signed", "signed", "sparse", "sparse", "blobs", "positive", "positive", "real", "real",
+                           "real", "negative", "binary", "single"])
         scale = self.pick_scale(rng, kind) if rng.random() < 0.2 else None
         if scale is not None and rng.random() < 0.5:
             rel = "equal"  # equal shapes, non-zero translation, at every scale
@@ -315,7 +645,14 @@ class C12(Prop):
             if ax:
                 i = rng.choice(ax)
                 t[i] = rng.choice([-1, 1]) * rng.randint(1, max(1, (sa[i] - 1) // 2))
-        return self.assemble(rng, sa, sb, t, kind, rel, scale, {"bg": "zero"} if rng.random() < 0.15 else None)
+        extra = {"bg": "zero"} if rng.random() < 0.15 else {}
+        if rng.random() < 0.35:
+            # the same values in another dtype / memory layout (drawn among the dtypes that can hold the texture)
+            integer = kind != "real" and (scale is None or "pow2" in scale and scale["pow2"] >= 0)
+            nonneg = kind in ("sparse", "blobs", "positive", "binary")
+            binary = kind == "binary" and scale is None
+            extra["pres"] = {"a": self.pick_pres(rng, integer, nonneg, binary), "b": self.pick_pres(rng, integer, nonneg, binary)}
+        return self.assemble(rng, sa, sb, t, kind, rel, scale, extra or None)
 
     def targeted(self, tier):
         # anchors: every shape pair <= 12 x 12, the five anchors
@@ -350,9 +687,12 @@ class C12(Prop):
         rng = core.case_rng(0, self.id, "targeted-scale", 0)
         for scale, kind in ([({"pow2": k}, "signed") for k in POW2] + [({"pow2": k}, "sparse") for k in (POW2[0], POW2[-1])]
                             + [({"dec": x}, "real") for x in DEC]):
-            for sa, t in (([16], [-5]), ([7, 8], [2, -3]), ([4, 5, 4], [1, -2, 0])):
+            for sa, t in (([16], [-5]), ([5, 6], [2, -3]), ([3, 4, 3], [1, -2, 0])):
                 yield self.assemble(rng, sa, sa, t, kind, "equal", scale)
             yield self.assemble(rng, [9, 6], [3, 4], [5, 1], kind, "sub", scale)
+        # anchors with extents beyond 2**31 and 2**32 (both orders of the larger image)
+        yield {"kind": "anchors", "a": [2 ** 31 + 3, 5], "bs": [[4, 2 ** 32 + 2], [2 ** 33, 5], [7, 3], [2 ** 31, 8]]}
+        yield {"kind": "anchors", "a": [6, 9], "bs": [[2 ** 32 + 1, 4], [3, 2 ** 31 + 6]]}
         # long axes: transform length far above 1024 / above 2048, both signs, equal and unequal sizes, 1-D first
         rng = core.case_rng(0, self.id, "targeted-long", 0)
         for sa, sb, t, kind, rel in (
@@ -363,13 +703,52 @@ class C12(Prop):
                 ([40], [1500], [-1300], "signed", "super"),
                 ([1024], [1025], [-1], "signed", "overlap"),   # s = 2048 exactly
                 ([513], [513], [100], "signed", "equal"),      # s = 1025, the first length above 1024
-                ([700, 3], [700, 3], [-300, 1], "signed", "equal"),
-                ([2, 650], [3, 560], [-1, -200], "signed", "overlap")):
+                ([560, 2], [560, 2], [-300, 1], "signed", "equal"),
+                ([2, 600], [2, 500], [-1, -200], "signed", "overlap")):
             yield self.assemble(rng, sa, sb, t, kind, rel, None, {"cls": "long"})
         yield self.assemble(rng, [800], [800], [-350], "signed", "equal", {"pow2": -40}, {"cls": "long"})
+        # medium sizes: transform lengths between the small pairs and 1024 (around 64, 128, 256, 512 and between), both signs
+        rng = core.case_rng(0, self.id, "targeted-medium", 0)
+        for sa, sb, t, kind, rel in (
+                ([40], [30], [-17], "signed", "overlap"),        # s = 69
+                ([100], [60], [-31], "real", "overlap"),         # s = 159
+                ([150], [151], [-70], "signed", "overlap"),      # s = 300
+                ([40], [500], [-333], "signed", "super"),        # s = 539
+                ([450], [450], [-200], "sparse", "equal"),       # s = 899
+                ([700], [90], [580], "signed", "far"),           # s = 789, positive and beyond s/2
+                ([20, 18], [19, 21], [-9, 7], "signed", "overlap"),
+                ([6, 7, 6], [6, 5, 7], [2, -3, -4], "signed", "overlap")):
+            yield self.assemble(rng, sa, sb, t, kind, rel, None, {"cls": "medium"})
         if tier == "thorough":
             for i in range(24):
                 yield self.gen_long(core.case_rng(0, self.id, "targeted-long", 1 + i), tier)
+        # histories on one pair of array objects, refreshed in place between the calls
+        rng = core.case_rng(0, self.id, "targeted-hist", 0)
+        # a frame buffer that follows a feature on an empty background, a tile that holds the feature (2-D), ab every time
+        shape, sa, sb, fpos, feat = [16, 18], [10, 12], [6, 7], [6, 7], [4, 5]
+        arr = np.zeros(shape, dtype=object)
+        arr[6:10, 7:12] = np.array([rng.randint(1, 30) for _ in range(20)], dtype=object).reshape(4, 5)
+        data = [int(v) for v in arr.ravel()]
+        yield {"kind": "hist", "mode": "frame-move", "texture": "positive", "q": 0, "shape": shape, "sa": sa, "sb": sb,
+               "steps": [{"data": data, "offA": oa, "offB": [5, 6], "calls": calls, "fresh": "", "label": lab}
+                         for oa, calls, lab in (([2, 3], ["ab"], "first"), ([0, 1], ["ab"], "move-a"),
+                                                ([4, 5], ["ab", "ba"], "move-a"))]}
+        # a line whose pixels are shuffled in place, a piece of it re-cut (1-D); then the line flipped
+        line = [rng.randint(-40, 40) for _ in range(30)]
+        shuffled = list(line)
+        rng.shuffle(shuffled)
+        yield {"kind": "hist", "mode": "permute", "texture": "signed", "q": 0, "shape": [30], "sa": [30], "sb": [9],
+               "steps": [{"data": line, "offA": [0], "offB": [12], "calls": ["ab"], "fresh": "", "label": "first"},
+                         {"data": shuffled, "offA": [0], "offB": [5], "calls": ["ab"], "fresh": "", "label": "permute-a:shuffle"},
+                         {"data": shuffled[::-1], "offA": [0], "offB": [17], "calls": ["ab", "aa"], "fresh": "",
+                          "label": "permute-a:flip"}]}
+        # the tile is the first argument and moves (the frame stays): second / first roles exchanged
+        yield {"kind": "hist", "mode": "frame-move", "texture": "positive", "q": 0, "shape": shape, "sa": sa, "sb": sb,
+               "steps": [{"data": data, "offA": [3, 4], "offB": ob, "calls": ["ba"], "fresh": "", "label": lab}
+                         for ob, lab in (([5, 6], "first"), ([3, 5], "move-b"), ([6, 7], "move-b"))]}
+        for i, (mode, d) in enumerate((("frame-move", 1), ("frame-move", 2), ("frame-move", 3), ("permute", 1),
+                                       ("permute", 2), ("edit", 2), ("mixed", 2), ("mixed", 1))):
+            yield self.gen_hist(core.case_rng(0, self.id, "targeted-hist", 1 + i), tier, mode, d)
 
     def search_extra(self, tier):
         rng = core.case_rng(1, self.id, "search", 0)
@@ -382,11 +761,14 @@ class C12(Prop):
                            "A": {"off": [-lo], "shape": [a]}, "B": {"off": [-lo + t], "shape": [b]}}
 
     # ------------------------------------------------------------------ evaluation
-    def reg_part(self, ctx, register, x, y, want):
-        """one call of fft_register_offset(x, y) against the driver; returns (impl, model, spec, determined, reply)"""
+    def reg_part(self, ctx, register, x, y, want, single=False):
+        """one call of fft_register_offset(x, y) against the driver; returns (impl, model, spec, determined, reply).
+        x, y are the very objects handed to pewlib (any dtype / layout; their values are exact in float64: `present`);
+        `single`: numpy computes the transform of at least one of them in single precision"""
         long = model_cost(x.shape, y.shape) > LONG_COST
-        jx, jy = img_json(x), img_json(y)
-        n1 = Fraction(float(np.abs(x).sum())) * Fraction(float(np.abs(y).sum()))
+        xf, yf = np.asarray(x, dtype=np.float64), np.asarray(y, dtype=np.float64)
+        jx, jy = img_json(xf), img_json(yf)
+        n1 = Fraction(float(np.abs(xf).sum())) * Fraction(float(np.abs(yf).sum()))
         try:
             res = register.fft_register_offset(x, y)
             impl = [int(v) for v in res]
@@ -396,7 +778,7 @@ class C12(Prop):
             # whole lag box by the array twin; the model itself at the decisive lags, among them the true
             # translation and the implementation's answer
             probe = [list(want)] + ([impl] if isinstance(impl, list) and len(impl) == x.ndim and impl != list(want) else [])
-            rep = ctx.driver.call("c12.registerLong", a=jx, b=jy, probe=probe)
+            rep = ctx.driver.call("c12.registerLong", a=jx, b=jy, probe=probe, truth=list(want))
             if rep["lag"] == want and (rep["asked"][0] is None or unrat(rep["asked"][0]) != unrat(rep["max"])):
                 raise core.InternalError("c12.registerLong: the model's xcorr at the true lag is not the reported maximum")
         else:
@@ -406,7 +788,8 @@ class C12(Prop):
         if ru is None:
             determined = True  # a single lag: nothing to separate
         else:
-            determined = mx > 0 and (mx - ru) >= MARGIN * mx and (mx - ru) >= Fraction(1, 10 ** 9) * n1
+            determined = (mx > 0 and (mx - ru) >= MARGIN * mx
+                          and (mx - ru) >= (MARGIN_ABS_SINGLE if single else MARGIN_ABS) * n1)
         rep["at_truth"] = rep["lag"] == want
         if not determined:
             return MASK, MASK, MASK, False, rep
@@ -420,6 +803,8 @@ class C12(Prop):
             return self.eval_anchors(case, ctx, register)
         if not valid(case):
             return outcome("invalid", "invalid", "invalid", undetermined=True, hyp=False)
+        if case["kind"] == "hist":
+            return self.eval_hist(case, ctx, register)
         sc = case["scene"]
         scale = case.get("scale")
         scene = scene_array(sc, scale)
@@ -433,24 +818,37 @@ class C12(Prop):
         zero = [0] * d
         impl, model, spec = {}, {}, {}
         feats = set()
-        parts = [("ab", a, b, t), ("ba", b, a, [-l for l in t])]
-        if a.any():
-            parts.append(("aa", a, a, zero))
-        if b.any():
-            parts.append(("bb", b, b, zero))
+        # the arrays handed to fft_register_offset: the same values, possibly in another dtype / memory layout
+        pres = case.get("pres") or {}
+        costly = model_cost(A["shape"], B["shape"]) > LONG_COST
+        pa, pb = [None if (p is not None and costly and p.get("dtype") in SINGLE) else p for p in (pres.get("a"), pres.get("b"))]
+        xa, pa = present(a, pa)
+        xb, pb = present(b, pb)
+        single = any(p is not None and p.get("dtype") in SINGLE for p in (pa, pb))
+        parts = [("ab", xa, xb, t), ("ba", xb, xa, [-l for l in t])]
+        if a.any() and twin_cost(a.shape, a.shape) <= SELF_COST:
+            parts.append(("aa", xa, xa, zero))
+        if b.any() and twin_cost(b.shape, b.shape) <= SELF_COST:
+            parts.append(("bb", xb, xb, zero))
         det, reps = {}, {}
         for name, x, y, want in parts:
-            impl[name], model[name], spec[name], det[name], reps[name] = self.reg_part(ctx, register, x, y, want)
+            impl[name], model[name], spec[name], det[name], reps[name] = self.reg_part(ctx, register, x, y, want, single=single)
             if det[name]:
                 feats.add(f"{name}:peak-at-truth" if reps[name]["at_truth"] else f"{name}:peak-not-at-truth(compared)")
                 if reps[name].get("truthHyp"):
                     feats.add(f"{name}:truth-theorem-applies")
+                if reps[name].get("zeroBg"):
+                    feats.add(f"{name}:zero-background-theorem-applies")
+                    if costly:
+                        feats.add("route:array-twin:zero-background-theorem-applies")
         # register, then merge at the estimated offset: the clause presupposes that the estimate is the true translation
         merge_on = det["ab"] and reps["ab"]["at_truth"] and isinstance(impl["ab"], list)
         if merge_on:
             impl["merge"], model["merge"], spec["merge"] = [], [], []
+            # the model side merges at the estimate the mechanism model returned (theorem merge_at_estimate), the
+            # implementation at its own estimate, the specification is the scene with the windows at the true translation
             rep = ctx.driver.call("c12.merge", scene=img_json(scene), offA=A["off"], offB=B["off"],
-                                  shapeA=A["shape"], shapeB=B["shape"],
+                                  shapeA=A["shape"], shapeB=B["shape"], est=reps["ab"]["model"],
                                   variants=[{"mode": m, "fill": None if f is None else core.rat(Fraction(f))}
                                             for m, f in MERGE_VARIANTS])
             for (m, f), r in zip(MERGE_VARIANTS, rep["results"]):
@@ -464,7 +862,7 @@ class C12(Prop):
                 spec["merge"].append({"shape": r["specShape"], "data": [qhex(v) for v in r["spec"]]})
             if "nan" in spec["merge"][0]["data"]:
                 feats.add("merge:uncovered-corner")
-            feats.add("merge:replace+mean x fill nan/0/finite")
+            feats.add("merge-at-the-estimate:replace+mean x fill nan/0/finite")
         else:
             impl["merge"] = model["merge"] = spec["merge"] = MASK
         if case.get("bg") == "zero":
@@ -475,6 +873,9 @@ class C12(Prop):
             inside = all(0 <= l <= x - y for l, x, y in zip(t, A["shape"], B["shape"]))
             outside = all(-(y - x) <= l <= 0 for l, x, y in zip(t, A["shape"], B["shape"]))
             feats.add("sub-window" if inside else "super-window" if outside else "overlapping-windows")
+            for p in (pa, pb):
+                if p is not None:
+                    feats |= {"dtype:" + p.get("dtype", "f8"), "layout:" + p.get("layout", "C")}
             if any(l < 0 for l in t):
                 feats.add("negative-translation")
             if all(l == 0 for l in t):
@@ -518,13 +919,120 @@ class C12(Prop):
         none_det = not any(det.values())
         return outcome(impl, model, spec, undetermined=none_det, hyp=det["ab"], features=feats)
 
+    def eval_hist(self, case, ctx, register):
+        """consecutive calls on two persistent array objects that are refreshed in place between the calls; each call is
+        compared with the specification (and the mechanism model) of the contents at the time of that call"""
+        sa, sb, shape = case["sa"], case["sb"], case["shape"]
+        d = len(shape)
+        scale = case.get("scale")
+        zero = [0] * d
+        contents = []
+        for st in case["steps"]:
+            scene = scene_array({"data": st["data"], "q": case.get("q", 0), "shape": shape}, scale)
+            if not float_safe(scene):
+                return outcome("float-range", "float-range", "float-range", undetermined=True, hyp=False)
+            contents.append({"a": cut(scene, {"off": st["offA"], "shape": sa}),
+                             "b": cut(scene, {"off": st["offB"], "shape": sb})})
+        long = model_cost(sa, sb) > LONG_COST
+        pres = {}
+        for key in "ab":
+            p = case.get("pres" + key.upper())
+            ok = p is not None and all(pres_ok(c[key], p) for c in contents) and not (long and p.get("dtype") in SINGLE)
+            pres[key] = p if ok else None
+        single = any(p is not None and p.get("dtype") in SINGLE for p in pres.values())
+        bufs = {}
+        gen = {"a": 0, "b": 0}  # how often the buffer was replaced by a new array object
+        impl, model, spec = {}, {}, {}
+        feats = set()
+        any_det = False
+        prev = None
+        ncalls = 0
+        for k, (st, cont) in enumerate(zip(case["steps"], contents)):
+            for key in "ab":
+                if key not in bufs or key in st.get("fresh", ""):
+                    # a new array object; the old one is released first (its id / memory may be handed out again)
+                    if bufs.pop(key, None) is not None:
+                        gen[key] += 1
+                        feats.add("history:buffer-replaced-by-a-new-array-object")
+                    buf = alloc(cont[key].shape, pres[key])
+                    buf[...] = cont[key]
+                    if pres[key] is not None and pres[key].get("layout") == "ro":
+                        buf.flags.writeable = False
+                    bufs[key] = buf
+                    del buf
+                else:
+                    fill_buffer(bufs[key], cont[key])  # the same object, new contents
+            t = [ob - oa for oa, ob in zip(st["offA"], st["offB"])]
+            for j, order in enumerate(st["calls"]):
+                x, y = bufs[order[0]], bufs[order[1]]
+                want = t if order == "ab" else [-l for l in t] if order == "ba" else zero
+                name = "step%d.%d:%s" % (k, j, order)
+                cx, cy = cont[order[0]], cont[order[1]]
+                impl[name], model[name], spec[name], det, rep = self.reg_part(ctx, register, x, y, want, single=single)
+                ncalls += 1
+                if det:
+                    any_det = True
+                    feats.add("history:%s" % ("self" if order in ("aa", "bb") else order))
+                    feats.add("history:peak-at-truth" if rep["at_truth"] else "history:peak-not-at-truth(compared)")
+                    if rep.get("truthHyp"):
+                        feats.add("history:truth-theorem-applies")
+                    if rep.get("zeroBg"):
+                        feats.add("history:zero-background-theorem-applies")
+                    if prev is not None:
+                        ox, oy = (order[0], gen[order[0]]), (order[1], gen[order[1]])
+                        for pos, obj, now, was_obj, was in (("first", ox, cx, prev[0], prev[2]), ("second", oy, cy, prev[1], prev[3])):
+                            if obj == was_obj:
+                                same = np.array_equal(now, was)
+                                tag = "history:%s-arg-same-object-as-in-previous-call" % pos
+                                feats.add(tag)
+                                if same:
+                                    feats.add(tag + ":same-contents")
+                                else:
+                                    feats.add(tag + ":edited-in-place")
+                                    if float(np.sum(now)) == float(np.sum(was)):
+                                        feats.add(tag + ":edited-in-place:sum-preserved")
+                                    if sorted(now.ravel().tolist()) == sorted(was.ravel().tolist()):
+                                        feats.add(tag + ":edited-in-place:pixels-permuted")
+                        if ox == prev[1] and oy == prev[0] and ox != oy:
+                            feats.add("history:arguments-swapped-since-previous-call")
+                        if rep["lag"] != prev[4]:
+                            feats.add("history:answer-differs-from-previous-call")
+                prev = ((order[0], gen[order[0]]), (order[1], gen[order[1]]), cx.copy(), cy.copy(), rep["lag"] if det else None)
+                del x, y
+            if k > 0:
+                feats.add("history:edit:" + str(st.get("label", "?")).split(":")[0])
+        if any_det:
+            feats |= {"history", "history:ndim%d" % d, "history:mode:" + str(case.get("mode", "?")),
+                      "history:calls=%d" % ncalls}
+            for key in "ab":
+                if pres[key] is not None:
+                    feats |= {"dtype:" + pres[key].get("dtype", "f8"), "layout:" + pres[key].get("layout", "C")}
+            if scale is not None:
+                feats.add("history:scaled")
+        else:
+            feats = set()
+        return outcome(impl, model, spec, undetermined=not any_det, hyp=any_det, features=feats)
+
     def eval_anchors(self, case, ctx, register):
         a = case["a"]
-        xa = np.zeros(a)
+
+        def blank(shape):
+            """an array of that shape (anchor_offset reads shapes only); large ones without memory behind them"""
+            if int(np.prod(shape, dtype=object)) <= 10 ** 5:
+                return np.zeros(shape)
+            return np.broadcast_to(np.zeros(1), tuple(shape))
+
+        if any(int(n) < 1 for n in a) or len(a) != 2 or int(np.prod(a, dtype=object)) >= 2 ** 62:
+            return outcome("invalid", "invalid", "invalid", undetermined=True, hyp=False)
+        xa = blank(a)
         impl = []
         feats = {"anchors"}
         for b in case["bs"]:
-            xb = np.zeros(b)
+            if any(int(n) < 1 for n in b) or len(b) != 2 or int(np.prod(b, dtype=object)) >= 2 ** 62:
+                return outcome("invalid", "invalid", "invalid", undetermined=True, hyp=False)
+            xb = blank(b)
+            if max(max(a), max(b)) >= 2 ** 31:
+                feats.add("anchor:extent>=2^31")
             row = []
             for an in ANCHORS:
                 try:
@@ -550,10 +1058,26 @@ class C12(Prop):
                 for b in case["bs"]:
                     yield {**case, "bs": [b]}
             return
+        if case["kind"] == "hist":
+            steps = case["steps"]
+            for key in ("scale", "presA", "presB"):
+                if case.get(key) is not None:
+                    yield {k: v for k, v in case.items() if k != key}
+            if len(steps) > 1:
+                for i in range(len(steps)):
+                    yield {**case, "steps": steps[:i] + steps[i + 1:]}
+            for i, st in enumerate(steps):
+                if len(st["calls"]) > 1:
+                    for j in range(len(st["calls"])):
+                        yield {**case, "steps": steps[:i] + [{**st, "calls": st["calls"][:j] + st["calls"][j + 1:]}] + steps[i + 1:]}
+                if st.get("fresh"):
+                    yield {**case, "steps": steps[:i] + [{**st, "fresh": ""}] + steps[i + 1:]}
+            return
         d = len(case["scene"]["shape"])
         costly = model_cost(case["A"]["shape"], case["B"]["shape"]) > LONG_COST
-        if case.get("scale") is not None:
-            yield {k: v for k, v in case.items() if k != "scale"}
+        for key in ("scale", "pres"):
+            if case.get(key) is not None:
+                yield {k: v for k, v in case.items() if k != key}
         # crop the scene to the bounding box of the two windows
         A, B, sc = case["A"], case["B"], case["scene"]
         lo = [min(x, y) for x, y in zip(A["off"], B["off"])]
